@@ -8,6 +8,7 @@ arbitrary statistic (median, biweight scale … are functions of the gathered
 list).
 -/
 import Proofs.SkyEstimate
+import PysersicModel.Gen.Consts
 
 namespace Pysersic.Props.C17
 open Pysersic.SkyEstimate
@@ -109,6 +110,63 @@ theorem masked_not_used (hH : 2 * (k + 1) ≤ H) (hW : 2 * (k + 1) ≤ W) (mask 
     (i j : Nat) (hm : mask i j = true) : (i, j) ∉ usedIdx H W (k + 1) mask := by
   rw [used_iff H W k hH hW]
   simp [hm]
+
+/-! ### the source's own slices and mask handling (regenerated from `estimate_sky` on every run) -/
+
+/-- the slices written in the source gather exactly the model's border list, for every shape and width -/
+theorem repo_slices (H W n : Nat) : borderIdxOf Gen.skySlices H W n = borderIdx H W n := by
+  simp [borderIdxOf, Gen.skySlices, borderIdx, SB.toBound]
+
+/-- the gathering keeps masks (`np.ma.concatenate(…).compressed()`, not `np.concatenate`) -/
+theorem repo_gather_keeps_mask : Gen.skyGatherKeepsMask = true := by decide
+
+/-- the full clause "ignores pixels that are masked, whether the mask is passed separately or as a masked array":
+whatever the image carries (`own`) and whatever is passed separately (`arg`), a pixel masked by either is masked
+when the border is gathered -/
+def masks_honoured_full (rule : MaskRule) : Prop :=
+  ∀ (H W : Nat) (own arg : Option (Nat → Nat → Bool)) (i j : Nat), i < H → j < W →
+    (maskOf own i j = true ∨ maskOf arg i j = true) → effMask rule H W own arg i j = true
+
+/-- … and nothing else is: the mask in force is exactly the union -/
+theorem effMask_combine (H W : Nat) (own arg : Option (Nat → Nat → Bool)) (i j : Nat) :
+    effMask .combine H W own arg i j = (maskOf own i j || maskOf arg i j) := by
+  cases arg <;> simp [effMask, maskOf]
+
+theorem masks_honoured_combine : masks_honoured_full .combine := by
+  intro H W own arg i j _ _ h
+  rw [effMask_combine]
+  rcases h with h | h <;> simp [h]
+
+/-- the source combines the two masks -/
+theorem repo_mask_rule : Gen.skyMaskRule = .combine := by decide
+
+theorem repo_masks_honoured : masks_honoured_full Gen.skyMaskRule := by
+  rw [repo_mask_rule]; exact masks_honoured_combine
+
+/-- a pixel masked either way never reaches the statistics (with the source's rule) -/
+theorem either_masked_not_used (hH : 2 * (k + 1) ≤ H) (hW : 2 * (k + 1) ≤ W)
+    (own arg : Option (Nat → Nat → Bool)) (i j : Nat) (hi : i < H) (hj : j < W)
+    (hm : maskOf own i j = true ∨ maskOf arg i j = true) :
+    (i, j) ∉ usedIdx H W (k + 1) (effMask Gen.skyMaskRule H W own arg) :=
+  masked_not_used H W k hH hW _ i j (repo_masks_honoured H W own arg i j hi hj hm)
+
+/-- the guard the code had before the repair (`if not np.ma.is_masked(image) and mask is not None`) does NOT meet the
+clause: a masked-array image with one masked pixel makes it drop the separately passed mask (replayed on the
+implementation by the harness: call style `both`) -/
+theorem argIfImageUnmasked_violates : ¬ masks_honoured_full .argIfImageUnmasked := by
+  intro h
+  have := h 3 3 (some fun i j => i == 0 && j == 0) (some fun i j => i == 2 && j == 2) 2 2 (by decide) (by decide)
+    (Or.inr (by decide))
+  revert this
+  decide
+
+/-- nor does `if not isMaskedArray(image) and mask is not None` (a masked array with nothing masked is enough) -/
+theorem argIfNotMaskedArray_violates : ¬ masks_honoured_full .argIfNotMaskedArray := by
+  intro h
+  have := h 3 3 (some fun _ _ => false) (some fun i j => i == 2 && j == 2) 2 2 (by decide) (by decide)
+    (Or.inr (by decide))
+  revert this
+  decide
 
 /-! ### non-vacuity and corner cases -/
 
